@@ -526,12 +526,46 @@ def r1_9(ctx: Ctx) -> None:
         r = node.expr_root()
         if r is None or isinstance(r, (ast.FunctionDef, ast.AsyncFunctionDef, ast.ClassDef, ast.ExceptHandler)):
             return False
-        for n in walk_shallow(r):
-            if isinstance(n, (ast.Attribute, ast.Subscript)) and isinstance(n.value, ast.Name) and n.value.id == name:
+        def tests(e: ast.AST) -> Optional[bool]:
+            """True: e holds only if `name` is not None/falsy; False: e holds only if it is None/falsy; None: no test of it."""
+            if isinstance(e, ast.Name) and e.id == name:
                 return True
-            if isinstance(n, ast.Call) and isinstance(n.func, ast.Name) and n.func.id == name:
+            if isinstance(e, ast.UnaryOp) and isinstance(e.op, ast.Not):
+                t = tests(e.operand)
+                return None if t is None else not t
+            if isinstance(e, ast.Compare) and len(e.ops) == 1 and isinstance(e.left, ast.Name) and e.left.id == name \
+                    and isinstance(e.comparators[0], ast.Constant) and e.comparators[0].value is None:
+                return isinstance(e.ops[0], (ast.IsNot, ast.NotEq))
+            return None
+
+        def unprotected(e: ast.AST) -> bool:
+            # operands after a test of the name inside one expression come after the test (`x and x.a`, `x.a if x else d`)
+            if isinstance(e, ast.BoolOp):
+                for v in e.values:
+                    if unprotected(v):
+                        return True
+                    if tests(v) is not None:
+                        return False  # what follows is evaluated *after* the test (this rule is about uses before it)
+                return False
+            if isinstance(e, ast.IfExp):
+                if unprotected(e.test):
+                    return True
+                if tests(e.test) is not None:
+                    return False
+                return unprotected(e.body) or unprotected(e.orelse)
+            if isinstance(e, (ast.Lambda, ast.FunctionDef, ast.AsyncFunctionDef, ast.ClassDef)):
+                return False
+            if isinstance(e, (ast.Attribute, ast.Subscript)) and isinstance(e.value, ast.Name) and e.value.id == name:
                 return True
-        return False
+            if isinstance(e, ast.Call) and isinstance(e.func, ast.Name) and e.func.id == name:
+                return True
+            return any(unprotected(c) for c in ast.iter_child_nodes(e) if not isinstance(c, (ast.stmt,)) or c is e)
+
+        if isinstance(r, ast.stmt):
+            # only what is evaluated at this node, not nested bodies
+            parts = [c for c in ast.iter_child_nodes(r) if isinstance(c, (ast.expr, ast.keyword, ast.withitem))]
+            return any(unprotected(c) for c in parts)
+        return unprotected(r)
 
     def binds(node: CNode, name: str) -> bool:
         a = node.ast
